@@ -1202,6 +1202,10 @@ func (p *Printer) command(cmd Command, redirs []*Redirect) (startRedirs int) {
 		// avoid ; in an empty block
 		p.wroteSemi = true
 		p.wantSpace = spaceRequired
+		if p.minify && len(cmd.Stmts) == 0 {
+			// "{}" would be a word rather than an empty block
+			p.w.WriteByte(' ')
+		}
 		// Forbid "foo()\n{ bar; }"
 		p.wantNewline = p.wantNewline || p.funcNextLine
 		p.nestedStmts(cmd.Stmts, cmd.Last, cmd.Rbrace)
